@@ -1,6 +1,8 @@
 package sync
 
 // D21 (C14): Map.Range hands its callback entries that are no longer in the map.
+// REPAIRED in /repo by 9664c20 (LoadAndDeleteAll empties the map in place and returns a copy): this test fails
+// on the tree before that commit and passes since. The description below is of the code before the repair.
 // Range evaluates m.data once (`for key, value := range m.data`) and releases the lock around every
 // callback. LoadAndDeleteAll replaces m.data by a new map and hands the old one to its caller. A drain
 // that happens while a Range is in progress (here: from inside the first callback, where the lock is not
